@@ -229,6 +229,11 @@ func ruleAuthComposition(c *Ctx, rule string) {
 	}
 	ret := trueRets[0]
 	facts := w.factsAt(ret)
+	if os.Getenv("TURNCHECK_C03DEBUG") != "" {
+		for _, f := range facts {
+			fmt.Fprintf(os.Stderr, "C03.3 fact: %s   [X=%T]\n", w.factStr(f), f.X)
+		}
+	}
 	find := func(pred func(f Fact) bool) bool {
 		for _, f := range facts {
 			if pred(f) {
@@ -283,13 +288,57 @@ func ruleAuthComposition(c *Ctx, rule string) {
 	step("realm decoded", getter["Realm"] != "", "Realm.GetFrom(stunMsg) == nil")
 	step("username decoded", getter["Username"] != "", "Username.GetFrom(stunMsg) == nil")
 	// string of a decoded attribute: call String(*recv)
-	strOf := func(v ssa.Value, typ string) bool {
+	var strOf func(v ssa.Value, typ string) bool
+	strOf = func(v ssa.Value, typ string) bool {
+		if v == nil {
+			return false
+		}
+		// a field of a small value struct the decoding stage hands back (creds.username)
+		if fx, isF := under(v).(*ssa.Field); isF {
+			if st, _ := fx.X.Type().Underlying().(*types.Struct); st != nil {
+				vals, ok := w.flow().structValueField(fx.X, []string{st.Field(fx.Field).Name()}, 0)
+				if !ok || len(vals) == 0 {
+					return false
+				}
+				for _, sv := range vals {
+					if !strOf(w.resolveLoad(sv), typ) {
+						return false
+					}
+				}
+				return true
+			}
+		}
+		if u, isU := under(v).(*ssa.UnOp); isU && u.Op == token.MUL {
+			if _, isFA := u.X.(*ssa.FieldAddr); isFA {
+				if al, path := allocBase(u.X); al != nil && len(path) > 0 {
+					vals, ok := w.flow().localFieldStoresP(al, path)
+					if os.Getenv("TURNCHECK_C03DEBUG") != "" {
+						fmt.Fprintf(os.Stderr, "   strOf local field %s %v: ok=%v n=%d\n", w.key(al), path, ok, len(vals))
+						for _, sv := range vals {
+							fmt.Fprintf(os.Stderr, "      val %T %s\n", sv, w.key(sv))
+						}
+					}
+					if !ok || len(vals) == 0 {
+						return false
+					}
+					for _, sv := range vals {
+						if !strOf(w.resolveLoad(sv), typ) {
+							return false
+						}
+					}
+					return true
+				}
+			}
+		}
 		call, _ := callOf(v)
+		if call == nil {
+			call, _ = callOf(under(v))
+		}
 		if call == nil || call.Call.StaticCallee() == nil || call.Call.StaticCallee().Name() != "String" || len(call.Call.Args) != 1 {
 			return false
 		}
-		u, ok := call.Call.Args[0].(*ssa.UnOp)
-		return ok && u.Op == token.MUL && getter[typ] != "" && w.key(u.X) == getter[typ]
+		u, ok := under(call.Call.Args[0]).(*ssa.UnOp)
+		return ok && u.Op == token.MUL && getter[typ] != "" && (w.key(u.X) == getter[typ] || "&"+strings.TrimPrefix(w.key(call.Call.Args[0]), "*") == getter[typ])
 	}
 	step("nonce validated", find(func(f Fact) bool {
 		v, isNil, ok := nilFact(f)
@@ -306,10 +355,20 @@ func ruleAuthComposition(c *Ctx, rule string) {
 			return false
 		}
 		call, idx := callOf(f.X)
+		if call == nil {
+			// the handler called inside a verification stage: the stage's own call
+			call, idx = callOf(under(f.X))
+		}
 		if call == nil || idx != 2 || call.Call.StaticCallee() != nil || call.Call.IsInvoke() || w.key(call.Call.Value) != reqKey+".AuthHandler" {
 			return false
 		}
 		lit := w.literalOf(call.Call.Args[0])
+		if os.Getenv("TURNCHECK_C03DEBUG") != "" {
+			fmt.Fprintf(os.Stderr, "C03.3 handler call %s value=%s lit=%v\n", w.instrPos(call), w.key(call.Call.Value), lit != nil)
+			if lit != nil {
+				fmt.Fprintf(os.Stderr, "   Username=%T %s ok=%v; Realm ok=%v\n", lit.fields["Username"], w.key(lit.fields["Username"]), strOf(lit.fields["Username"], "Username"), strOf(lit.fields["Realm"], "Realm"))
+			}
+		}
 		if lit == nil || !strOf(lit.fields["Username"], "Username") || !strOf(lit.fields["Realm"], "Realm") {
 			return false
 		}
@@ -326,11 +385,25 @@ func ruleAuthComposition(c *Ctx, rule string) {
 			return false
 		}
 		kc, ki := callOf(stripConv(call.Call.Args[0]))
+		if kc == nil {
+			kc, ki = callOf(stripConv(under(stripConv(call.Call.Args[0]))))
+		}
 		return kc == hcall && ki == 1 && w.key(call.Call.Args[1]) == msgKey
 	}), "stun.MessageIntegrity(key returned by that AuthHandler call).Check(stunMsg) == nil")
 	if hcall != nil {
 		kc, ki := callOf(stripConv(w.resolveLoad(ret.Results[0])))
 		uc, ui := callOf(w.resolveLoad(ret.Results[2]))
+		if kc != hcall || uc != hcall {
+			// handed back by the verification stage: what its successful returns yield
+			kv, _, _ := w.originAt(ret.Results[0], ret)
+			uv, _, _ := w.originAt(ret.Results[2], ret)
+			if k2, i2 := callOf(stripConv(under(stripConv(kv)))); k2 == hcall {
+				kc, ki = k2, i2
+			}
+			if u2, i2 := callOf(under(uv)); u2 == hcall {
+				uc, ui = u2, i2
+			}
+		}
 		step("results", kc == hcall && ki == 1 && uc == hcall && ui == 0, "returned key/user being results #1/#0 of the AuthHandler call")
 	}
 }
@@ -1269,7 +1342,12 @@ func ruleMACCoversTimestamp(c *Ctx, rule string) {
 								case *ssa.MakeSlice, *ssa.Alloc:
 									fresh = true
 								}
-								if l0 := fhi - flo; fresh && flo == 0 && fhi >= 0 && stripIface(base) == ssa.Value(c2.call) && hi == l0+wd && hi-lo >= 4 && lo >= l0 {
+								hiE := hi
+								if hi < 0 && lo == 0 && stripIface(wr) == ssa.Value(c2.call) && fhi >= 0 {
+									hiE = fhi - flo + wd // the whole result: everything up to the appended integer's last byte
+								}
+								if l0 := fhi - flo; fresh && flo == 0 && fhi >= 0 && stripIface(base) == ssa.Value(c2.call) && hiE == l0+wd && hiE-lo >= 4 && (lo >= l0 || l0 == 0) {
+									hi := hiE
 									okWhy = fmt.Sprintf("MAC input [%d:%d] holds the %d low-order bytes of the %s-encoded timestamp", lo, hi, hi-lo, c2.name)
 								}
 							}
